@@ -737,6 +737,24 @@ def dom_corpus(tier: str, seed: int):
         # implicit reaching the upper limit of the domain
         add(make_decl(r, [("A", str(hi - 2), None), ("B", None, None), ("C", None, None), ("Z", "0", None)],
                       shape="dom_implicit_to_max"), {"feat": ["implicit_after_explicit", "limit"]}, modes_i=ri)
+        # 2b. implicit discriminants counting across the limits of every narrower (and the own signed) width
+        for w in (8, 16, 32, 64):
+            imax = (1 << (w - 1)) - 1
+            umax = (1 << w) - 1
+            if imax + 2 <= hi:
+                add(make_decl(r, [("A", str(imax - 1), None), ("B", None, None), ("C", None, None), ("D", None, None), ("Z", "0", None)],
+                              shape="dom_implicit_across_i%d_max" % w), {"feat": ["implicit_after_explicit", "limit"]}, modes_i=ri)
+            if umax + 2 <= hi:
+                add(make_decl(r, [("A", "0x%x" % (umax - 1), None), ("B", None, None), ("C", None, None), ("Z", "1", None)],
+                              shape="dom_implicit_across_u%d_max" % w), {"feat": ["implicit_after_explicit", "limit"]}, modes_i=ri)
+        if signed and bits >= 64:
+            # i64::MIN in every lint-free spelling
+            add(make_decl(r, [("A", "-9_223_372_036_854_775_808", None), ("B", "-9223372036854775807%s" % r, None), ("C", "0", None)],
+                          shape="dom_i64_min_spellings"), {"feat": ["limit", "suffix"]}, modes_i=ri)
+            if bits > 64:
+                add(make_decl(r, [("A", "-0x8000_0000_0000_0000", None), ("B", "-9223372036854775808%s" % r, None) if False else ("B", "-0o777777777777777777776", None),
+                                  ("C", "- 0b111", None), ("D", "-9_223_372_036_854_775_807_%s" % r, None)],
+                              shape="dom_i64_min_spellings_wide"), {"feat": ["limit", "nondecimal", "suffix"]}, modes_i=ri)
         # 3. limits as explicit literals
         lim = [("A", str(lo), None), ("B", str(hi), None), ("C", "0" if lo != 0 else "1", None)]
         add(make_decl(r, lim, shape="dom_limits"), {"feat": ["limit"]}, modes_i=ri)
